@@ -31,3 +31,51 @@ Theorem C06_no_condition_no_predicate :
   forall cs : list (cond query), fold_left holder_add cs HEmpty = HEmpty <-> cs = [].
 Proof. exact holder_empty_iff. Qed.
 Print Assumptions C06_no_condition_no_predicate.
+
+(* End to end inside Coq (Proofs/WhereLinkProofs.v): for EVERY condition tree whose leaf expressions are
+   in the operator fragment (comparisons, arithmetic, NOT over primary operands), every backend, both
+   settings of option-more-parentheses, the decision tables executed from the code on this run and every
+   valuation of the atoms: the WHERE / HAVING / ON clause the renderer writes is the abstract rendering of
+   to_simple_expr c; that token list has a parse under the dialect's levels; EVERY parse of it is the same
+   tree, and the Kleene value of the tree so read is the specified any / all / not meaning of c. *)
+Require Import SQV.Spec.Pratt SQV.Spec.ParenRows SQV.Model.Escape SQV.Model.Writer SQV.Model.RenderExpr
+  SQV.Model.RenderStmt SQV.Model.ExprTablesInst SQV.Proofs.PrattLinkProofs SQV.Proofs.RowsSafeProofs
+  SQV.Proofs.WhereLinkProofs.
+From Coq Require Import String.
+Open Scope list_scope.
+Theorem C06_written_condition_reads_as_specified :
+  forall (Q : Type) b more (rho : Expr.expr Q -> tv) (c : cond Q) rest p rest',
+  cond_frag Q b c = true ->
+  stops (Expr.expr Q) binop (prec b) 0 rest ->
+  P (Expr.expr Q) binop (prec b) (rmin b) (notp b) 0
+    (abstract_rendering Q (tables_of more b) (to_simple_expr c) ++ rest) p rest' ->
+  p = skel Q (to_simple_expr c) /\ rest' = rest /\ eval3 rho (unskel Q p) = sem_cond rho c.
+Proof. intros Q b more rho. apply written_condition_reads_as_specified. apply all_rows_safe. Qed.
+Print Assumptions C06_written_condition_reads_as_specified.
+
+Theorem C06_written_condition_parses :
+  forall (Q : Type) b more (c : cond Q) rest,
+  cond_frag Q b c = true -> stops (Expr.expr Q) binop (prec b) 0 rest ->
+  P (Expr.expr Q) binop (prec b) (rmin b) (notp b) 0
+    (abstract_rendering Q (tables_of more b) (to_simple_expr c) ++ rest) (skel Q (to_simple_expr c)) rest.
+Proof. intros Q b more. apply written_condition_parses. apply all_rows_safe. Qed.
+Print Assumptions C06_written_condition_parses.
+
+Theorem C06_where_script_is_abstract_rendering :
+  forall is_alpha b T rq kw (c : cond query), cond_frag query b c = true ->
+  rholder is_alpha b T rq kw (HCond c) =
+  [WS (K " " ++ K kw ++ K " ")] ++
+  flat_map (tok_script query rq is_alpha b T) (abstract_rendering query T (to_simple_expr c)).
+Proof. exact where_script_is_abstract_rendering. Qed.
+Print Assumptions C06_where_script_is_abstract_rendering.
+
+(* non-vacuity: all(a = 1, any(b < c, not(all(d IS NULL)))) has fragment leaves on every backend *)
+Example C06_cond_frag_inhabited :
+  let col := fun n : N => @EColumn unit (CCol [n]) in
+  let c := Cond false false
+             [MExpr (EBinary (col 97%N) BEqual (EValue (V TInt (Some (PInt 1%Z)))));
+              MCond (Cond false true
+                [MExpr (EBinary (col 98%N) BSmallerThan (col 99%N));
+                 MCond (Cond true false [MExpr (EBinary (col 100%N) BIs (EKeyword KwNull))])])] in
+  forall b, cond_frag unit b c = true.
+Proof. intros col c [| |]; reflexivity. Qed.
